@@ -20,8 +20,8 @@ Section MetaObject.
     let e := fst (fst (fst v)) in let g := snd (fst (fst v)) in
     let geom := snd (fst v) in let hs := snd v in
     if c_use_grids c
-    then mkState hs [] (filter (near_hill O c geom) hs) [] e g geom
-    else mkState [] hs [] [] e g geom.
+    then mkState hs [] (filter (near_hill O c geom) hs) [] e g geom []
+    else mkState [] hs [] [] e g geom [].
 
   Definition meta_machine : machine (@cfg T) (@state T) (list (list T)) (T * list (list T)) meta_saved :=
     mkMachine (init_state O)
